@@ -13,13 +13,13 @@ Section Reach.
 Variable reorder : reorder_t.
 Hypothesis reorder_perm : reorder_ok reorder.
 
-(* [0 < theta0 c <= MAX_THETA]: what `starting_theta_from_sampling_probability` yields for every
-   sampling probability in [2^-63, 1] *)
+(* [theta0 c <= MAX_THETA]: what `starting_theta_from_sampling_probability` yields for every
+   sampling probability in (0, 1] *)
 Theorem compact_wf : forall c ops s ordered, cfg_ok c -> reach reorder c ops s ->
-  0 < theta0 c -> theta0 c <= MAX_THETA -> c_seed_hash c < 65536 ->
+  theta0 c <= MAX_THETA -> c_seed_hash c < 65536 ->
   c_wf (c_seed_hash c) (sk_compact s ordered).
 Proof.
-  intros c ops s ordered Hc Hr Hp Hm Hsh.
+  intros c ops s ordered Hc Hr Hm Hsh. pose proof (theta0_pos c) as Hp.
   destruct (compact_spec reorder reorder_perm c ops s ordered Hc Hr) as [HP [Hn [He [_ [Hne [Hem [_ [Hso Hseed]]]]]]]].
   destruct (kmv reorder reorder_perm c ops s Hc Hr) as [_ [Hset _]].
   pose proof (theta_le_initial reorder reorder_perm c ops s Hc Hr) as Hle.
